@@ -44,6 +44,13 @@ def gen_case(rng):
     s.eol = rng.choice(["\n", "\n", "\r\n"])
     s.final_newline = rng.random() < 0.7
     s.data_pad = (rng.choice(["", " ", "   ", "\t"]), rng.choice([" ", "  ", "\t", " \t "]))
+    # a declared delimiter: DLM TAB with columns aligned by runs of tabs, or DLM SPACE spelled out
+    r = rng.random()
+    if r < 0.2:
+        s.dlm = "TAB"
+        s.tab_sep = rng.choice(["\t", "\t\t", "\t\t\t", "\t"])
+    elif r < 0.3:
+        s.dlm = "SPACE"
     # blank and comment lines at every kind of position in ~A
     extras = []
     nrows = len(s.rows)
